@@ -166,6 +166,16 @@ def run(ctx):
                     ctx.violation(dict(kind='write-read', type=leaf[0], length=ln, written_prefix=st.getvalue()[:8].hex(),
                                        read_back_length=(len(back) if isinstance(back, (str, bytes)) else repr(back)),
                                        how='DataType.write_to_stream of a value of that length, then create_from_stream'))
+        # integers are written from Python ints only: a fractional or integral float, text, bytes, None or a list is NOT representable and must be
+        # refused (struct.error / TypeError), never coerced and written as something else
+        for leaf in [t for t in WRITABLE_LEAVES if t[0] in ('u', 'i')]:
+            for bad in (2.5, 99.7, 1.0, '7', b'7', None, [1], (1,)):
+                lt = lib.make(leaf); st = io.BytesIO(); ctx.case(None); ctx.count('foreign-type-for-int')
+                try: lt.write_to_stream(st, bad, 1)
+                except Exception: continue
+                ctx.violation(dict(kind='unrepresentable-value-written', type=impl.type_syntax(leaf), value=repr(bad), written=st.getvalue().hex(),
+                                   how='DataType.write_to_stream(BytesIO(), value, 1) must raise for a value that is not an int'))
+                break
         # argument lists
         from replay_unpack.core.entity_def.entity_description import EntityMethod, MethodArgument
         bad_args = None
